@@ -1,6 +1,7 @@
 package main
 
 import (
+	"time"
 	"fmt"
 	"go/types"
 	"path/filepath"
@@ -390,6 +391,31 @@ func addTime(T map[string]intrinsic) {
 		T["(time.Time)."+n] = func(m *Machine, th *Thread, fr *Frame, f FuncV, a []Value) (Value, invStatus) {
 			t := a[0].(TimeV)
 			if t.civ == nil {
+				// a concrete instant (UTC wall clock): evaluated with the real time package
+				if rt, ok := concreteFlat(t); ok {
+					var v int
+					switch n {
+					case "Year":
+						v = rt.Year()
+					case "Month":
+						v = int(rt.Month())
+					case "Day":
+						v = rt.Day()
+					case "Hour":
+						v = rt.Hour()
+					case "Minute":
+						v = rt.Minute()
+					case "Second":
+						v = rt.Second()
+					case "Nanosecond":
+						v = rt.Nanosecond()
+					case "Weekday":
+						v = int(rt.Weekday())
+					case "YearDay":
+						v = rt.YearDay()
+					}
+					return done(m.tt.BV(uint64(int64(v)), 64))
+				}
 				panic(unsupported("calendar accessor " + n + " on flat time"))
 			}
 			m.noteCivil(t)
@@ -405,16 +431,41 @@ func addTime(T map[string]intrinsic) {
 		if t.civ != nil {
 			return done(m.civilTruncate(t, d))
 		}
+		if rt, ok := concreteFlat(t); ok && d.IsConst() {
+			return done(TimeV{ns: m.tt.BV(uint64(rt.Truncate(time.Duration(d.SInt())).UnixNano()), 64), zero: m.tt.ff, loc: t.loc})
+		}
 		panic(unsupported("time.Truncate on flat time"))
 	}
 	T["(time.Time).AddDate"] = func(m *Machine, th *Thread, fr *Frame, f FuncV, a []Value) (Value, invStatus) {
 		t := a[0].(TimeV)
 		if t.civ == nil {
+			y, mo, d := a[1].(*Term), a[2].(*Term), a[3].(*Term)
+			if rt, ok := concreteFlat(t); ok && y.IsConst() && mo.IsConst() && d.IsConst() {
+				r := rt.AddDate(int(y.SInt()), int(mo.SInt()), int(d.SInt()))
+				return done(TimeV{ns: m.tt.BV(uint64(r.UnixNano()), 64), zero: m.tt.ff, loc: t.loc})
+			}
 			panic(unsupported("AddDate on flat time"))
 		}
 		return done(m.civilAddDate(t, a[1].(*Term), a[2].(*Term), a[3].(*Term)))
 	}
 	T["time.Date"] = func(m *Machine, th *Thread, fr *Frame, f FuncV, a []Value) (Value, invStatus) {
+		if m.H.TimeMode != "civil" {
+			allConst := true
+			var v [7]int
+			for i := 0; i < 7; i++ {
+				t, ok := a[i].(*Term)
+				if !ok || !t.IsConst() {
+					allConst = false
+					break
+				}
+				v[i] = int(t.SInt())
+			}
+			if allConst {
+				// concrete calendar fields, UTC wall clock (the flat model has one zone): the real time package
+				r := time.Date(v[0], time.Month(v[1]), v[2], v[3], v[4], v[5], v[6], time.UTC)
+				return done(TimeV{ns: m.tt.BV(uint64(r.UnixNano()), 64), zero: m.tt.ff, loc: a[7]})
+			}
+		}
 		return done(m.civilDate(a))
 	}
 }
@@ -429,4 +480,12 @@ func (m *Machine) noteCivil(t TimeV) {
 		}
 	}
 	m.civSeen = append(m.civSeen, t.civ)
+}
+
+// concreteFlat: the instant of a flat time value whose nanosecond count is a constant (and which is not the zero time)
+func concreteFlat(t TimeV) (time.Time, bool) {
+	if t.civ != nil || t.ns == nil || !t.ns.IsConst() || t.zero == nil || !t.zero.IsFalse() {
+		return time.Time{}, false
+	}
+	return time.Unix(0, t.ns.SInt()).UTC(), true
 }
